@@ -419,3 +419,36 @@ Proof.
   rewrite (range_step_spec m) by lia. rewrite map_map. apply all_some_ok.
   intros k Hk. apply in_seq in Hk. cbn [Nat.add]. apply wslice_nat_ok. nia.
 Qed.
+
+(* concatenation mode with drivers of ANY width: `component <<= driver` truncates or
+   zero-extends every driver to its declared field width (resize); the whole is the
+   msb-first concatenation of the NORMALISED components, which are what is read back *)
+Definition norm_vals (cs : list schema) (vals : list bits) : list bits :=
+  map (fun cv => resize (sbw (fst cv)) (snd cv)) (combine cs vals).
+
+Theorem struct_concat_norm : forall s vals t,
+  concat_comp s vals = Some t -> children s <> [] ->
+  map croot (ckids t) = norm_vals (children s) vals /\
+  croot t = concat_msb (norm_vals (children s) vals) /\
+  length (croot t) = sbw s /\
+  well_sliced s t.
+Proof.
+  intros s vals t H Hne. unfold concat_comp in H.
+  destruct (Nat.eqb (length (children s)) (length vals)) eqn:El; cbn [negb] in H; [|discriminate].
+  apply Nat.eqb_eq in El. injection H as <-.
+  assert (Hroots : map croot (map (fun cv => slice_comp (fst cv) (snd cv)) (combine (children s) vals))
+                   = norm_vals (children s) vals).
+  { unfold norm_vals. rewrite map_map. apply map_ext. intros [c v]. cbn [fst snd].
+    apply (proj2 (slice_comp_ok c v)). }
+  assert (Hlen : length (concat_msb (norm_vals (children s) vals)) = sbw s).
+  { rewrite (sbw_children s Hne). clear Hroots Hne. unfold concat_msb, sumbw, norm_vals.
+    revert vals El. induction (children s) as [|c cs IH]; intros [|v vs] El; cbn [length] in El; try lia; [reflexivity|].
+    cbn [combine map rev fst snd sum_nat fold_right]. rewrite concat_app, app_length. cbn [concat]. rewrite app_nil_r.
+    rewrite length_resize. fold (sum_nat (map sbw cs)). rewrite (IH vs) by lia. lia. }
+  cbn [croot ckids]. rewrite Hroots. rewrite (resize_id _ _ Hlen).
+  split; [reflexivity|]. split; [reflexivity|]. split; [exact Hlen|].
+  constructor; [exact Hlen| |intros _; f_equal; exact Hroots].
+  clear Hroots Hlen Hne. revert vals El.
+  induction (children s) as [|c cs IH]; intros [|v vs] El; cbn [length] in El; try lia; [constructor|].
+  cbn [combine map fst snd]. constructor; [apply slice_comp_ok|apply IH; lia].
+Qed.
